@@ -201,6 +201,58 @@ fn run_churn(spec: &Spec) -> (Duration, bool, String, bool) {
     })
 }
 
+
+/// A status client that dawdles - it reads its Status Response and sends its ping only 2.5 s later, which is more
+/// than two limiter windows of one second - next to clients of other addresses that come and go meanwhile. Nobody
+/// is delayed, then or afterwards. Returns violations.
+fn dawdling_status_client() -> Vec<(String, String)> {
+    run_local(async {
+        let mut v = vec![];
+        for proxy in [false, true] {
+            let cfg = ListenerCfg { proxy: proxy.then_some((true, true)), limiter: Some((1, 100)), timeout: Duration::from_secs(20), ..Default::default() };
+            let running = start_listener(&cfg, NetAdapters::new()).await;
+            let ping = |peer: &'static str, src: &'static str| {
+                let addr = running.addr;
+                async move {
+                    let mut c = McClient::connect(addr, Some(peer.parse().unwrap())).await.map_err(|e| e.to_string())?;
+                    if proxy {
+                        c.send_raw(&proxy_v2(src.parse().unwrap(), addr)).await.map_err(|e| e.to_string())?;
+                    }
+                    tokio::time::timeout(BOUND, c.status_exchange(BOUND)).await.map_err(|_| "no reply within the bound".to_string())?.map(|_| ()).map_err(|e| format!("{e:?}"))
+                }
+            };
+            let Ok(mut slow) = McClient::connect(running.addr, Some("127.0.0.2".parse().unwrap())).await else { continue };
+            if proxy {
+                let _ = slow.send_raw(&proxy_v2("198.51.100.61:6100".parse().unwrap(), running.addr)).await;
+            }
+            let _ = slow.handshake("status.example", 25565, 1).await;
+            let _ = slow.send(&codec::sb_status_request()).await;
+            let _ = slow.read_packet(Duration::from_secs(2)).await;
+            let mut faults = vec![];
+            for k in 0..3 {
+                tokio::time::sleep(Duration::from_millis(850)).await;
+                if let Err(e) = ping("127.0.0.3", "198.51.100.62:6200").await {
+                    faults.push(format!("while the slow client waits (t = {} ms): {e}", 850 * (k + 1)));
+                }
+            }
+            let _ = slow.send(&codec::sb_ping(9)).await;
+            let _ = slow.read_packet(Duration::from_secs(2)).await;
+            drop(slow);
+            for k in 0..3 {
+                if let Err(e) = ping("127.0.0.3", "198.51.100.62:6200").await {
+                    faults.push(format!("after the slow client finished (attempt {k}): {e}"));
+                }
+            }
+            if !faults.is_empty() {
+                v.push(("stalled=status-client-that-dawdles-past-two-limiter-windows".to_string(), format!("a well-behaved client was not served within {BOUND:?} next to a status client that took 2.5 s between its two packets (limiter window 1 s, PROXY protocol {proxy}): {faults:?}")));
+            }
+            running.stop.cancel();
+            let _ = tokio::time::timeout(Duration::from_millis(500), running.done).await;
+        }
+        v
+    })
+}
+
 /// (elapsed, served, detail)
 fn run_schedule(spec: &Spec) -> (Duration, bool, String, bool) {
     if spec.churn > 0 {
@@ -357,6 +409,9 @@ pub fn run(cli: Cli) -> ! {
         }
     };
     par_for(specs.len(), |i| one(&specs[i]));
+    for (k, t) in dawdling_status_client() {
+        rep.violation(Violation { key: k, text: t, replay: json!({"dawdling": true}), weight: 70 });
+    }
     // the crowds one after the other (each holds more than a thousand file descriptors)
     for s in &crowds {
         one(s);
